@@ -454,3 +454,49 @@ Proof.
   apply Nat.eqb_eq in Hg. injection Hs as <-. cbn [next out] in *.
   split; [lia|]. split; [lia|]. exists s0. split; [reflexivity|]. split; [reflexivity|lia].
 Qed.
+
+(* ------------------------------------------------------------------ independence
+   the per-file wrapper has no state shared between tasks: the results of a stream are `map f` of the stream *)
+Section Independent.
+  Context {A : Type} (f : A -> res).
+
+  Lemma nth_res_map (xs : list A) i d : i < length xs -> nth_res (map f xs) i = f (nth i xs d).
+  Proof.
+    intros Hi. unfold nth_res. rewrite (nth_indep (map f xs) ReadWarn (f d)) by (rewrite map_length; exact Hi).
+    apply map_nth.
+  Qed.
+
+  (* every reachable state, ANY schedule: the i-th value handed to the caller is the value of the i-th task
+     of the stream, a raised exception is the one of its own task, and the i-th result does not change when
+     the OTHER tasks of the stream are replaced *)
+  Lemma stream_results_independent (xs : list A) w tr s : 0 < w ->
+    run w (map f xs) init tr = Some s ->
+    (forall i d, i < length (out s) ->
+        i < length xs /\ nth i (fst (observed (map f xs) s)) None = value_of (f (nth i xs d)))
+    /\ (forall h d, raised s = Some h ->
+        h < length xs /\ exists e, f (nth h xs d) = Err e /\ snd (observed (map f xs) s) = Some e)
+    /\ (forall xs' i d, i < length xs -> i < length xs' -> nth i xs d = nth i xs' d ->
+        nth_res (map f xs) i = nth_res (map f xs') i).
+  Proof.
+    intros Hw H. assert (Hi := reachable_inv w _ tr s Hw H).
+    destruct (inv_out_prefix w _ s Hi) as (Hp & Hle).
+    destruct Hi as (Hseq & _ & Hn & _ & _ & _ & Hrz). rewrite map_length in Hn.
+    split; [|split].
+    - intros i d Hlt. assert (Hx : i < length xs) by lia. split; [exact Hx|].
+      unfold observed. cbn [fst]. rewrite Hp.
+      set (g := fun j => value_of (nth_res (map f xs) j)).
+      rewrite (nth_indep (map g (seq 0 (length (out s)))) None (g 0))
+        by (rewrite map_length, seq_length; exact Hlt).
+      rewrite map_nth, seq_nth by exact Hlt. cbn [Nat.add]. unfold g.
+      rewrite (nth_res_map xs i d Hx). reflexivity.
+    - intros h d Hr. assert (Hh : h < length xs).
+      { assert (Hin : In h (seq 0 (next s))).
+        { rewrite <- Hseq. unfold consumed. rewrite Hr. apply in_or_app. left. apply in_or_app. right.
+          left. reflexivity. }
+        apply in_seq in Hin. lia. }
+      split; [exact Hh|]. specialize (Hrz h Hr). unfold observed. cbn [snd]. rewrite Hr.
+      rewrite (nth_res_map xs h d Hh) in *. destruct (f (nth h xs d)) as [v|e|]; try discriminate.
+      exists e. split; reflexivity.
+    - intros xs' i d H1 H2 He. rewrite (nth_res_map xs i d H1), (nth_res_map xs' i d H2), He. reflexivity.
+  Qed.
+End Independent.
